@@ -32,6 +32,10 @@ fn proxy_world(ctx: &mut Ctx) {
     let real_w: Vec<bool> = (0..nw).map(|_| ctx.plan_bool()).collect();
     let rounds: Vec<u32> = (0..nc).map(|_| 1 + ctx.plan(4) as u32).collect();
     let capture = (ctx.idx % 4) as usize; // 0 none, 1 PUSH, 2 PUB, 3 DEALER
+    // one case in ten: the workers turn up only after the first requests have reached a backend
+    // without peers. The proxy may then stop (it hands the error, with the message in it, to its
+    // caller) - but if it goes on running, that request must still be forwarded
+    let late_workers = ctx.plan(10) == 1;
     let shapes: Vec<Vec<usize>> = (0..8).map(|_| (0..1 + ctx.plan(3)).map(|_| ctx.plan_pick(&[0usize, 1, 20, 255, 256, 3000])).collect()).collect();
     let st = Rc::new(RefCell::new(St::default()));
     let s2 = st.clone();
@@ -85,6 +89,13 @@ fn proxy_world(ctx: &mut Ctx) {
             let (bep, s3) = (bep.clone(), s2.clone());
             if real_w2[w] {
                 rt::task::spawn_local("worker", async move {
+                    if late_workers {
+                        rt::task::idle().await;
+                        if s3.borrow().proxy_result.is_some() {
+                            // the proxy has stopped and taken its sockets with it: nobody to connect to
+                            return world::park().await;
+                        }
+                    }
                     let mut rep = RepSocket::new();
                     if rep.connect(&bep).await.is_err() {
                         s3.borrow_mut().viol.push(("harness", "worker connect failed".into()));
@@ -105,6 +116,9 @@ fn proxy_world(ctx: &mut Ctx) {
                 });
             } else {
                 rt::task::spawn_local("raw-worker", async move {
+                    if late_workers {
+                        rt::task::idle().await;
+                    }
                     let Ok(mut p) = RawPeer::connect(&bep) else { return };
                     s3.borrow_mut().back.push(p.conn.clone());
                     if p.hello("REP", None).await.is_err() {
@@ -130,8 +144,10 @@ fn proxy_world(ctx: &mut Ctx) {
             }
         }
         // let the workers be admitted
-        for _ in 0..3 {
-            rt::task::idle().await;
+        if !late_workers {
+            for _ in 0..3 {
+                rt::task::idle().await;
+            }
         }
         let s3 = s2.clone();
         rt::task::spawn_local("proxy", async move {
@@ -145,6 +161,9 @@ fn proxy_world(ctx: &mut Ctx) {
             let (fep, s3, n, shapes3) = (fep.clone(), s2.clone(), rounds2[c], shapes2.clone());
             if real_c2[c] {
                 rt::task::spawn_local("client", async move {
+                    if late_workers && s3.borrow().proxy_result.is_some() {
+                        return world::park().await;
+                    }
                     let mut req = ReqSocket::new();
                     if req.connect(&fep).await.is_err() {
                         s3.borrow_mut().viol.push(("harness", "client connect failed".into()));
@@ -199,7 +218,9 @@ fn proxy_world(ctx: &mut Ctx) {
         world::park().await;
     });
     let end = ctx.sim.run(600_000);
-    if end == rt::RunEnd::Budget {
+    if end == rt::RunEnd::Budget && !(late_workers && st.borrow().proxy_result.is_some()) {
+        // (once the proxy has stopped and taken its sockets with it, a real client or worker that
+        // still tries to connect retries for ever: that is connect(), not the proxy)
         ctx.violation("no_quiescence", "proxy world did not become quiescent".into());
     }
     if std::env::var_os("ZSIM_DEBUG").is_some() {
@@ -211,18 +232,30 @@ fn proxy_world(ctx: &mut Ctx) {
         }
     }
     let s = st.borrow();
-    let had = !s.viol.is_empty();
+    let stopped_late = late_workers && s.proxy_result.is_some();
+    let had = !s.viol.is_empty() && !stopped_late;
     for (c, d) in s.viol.clone() {
+        if stopped_late {
+            // consequences of the proxy having stopped (its sockets are gone): not judged
+            break;
+        }
         if c == "harness" {
             ctx.harness_error(d);
         } else {
             ctx.violation(c, d);
         }
     }
-    if let Some(r) = &s.proxy_result {
+    if late_workers && s.proxy_result.is_some() {
+        // the proxy stopped on a backend without peers: nothing left to judge "while a proxy runs"
+        ctx.probe("proxy_stopped_on_a_side_without_peers");
+        ctx.nontrivial();
+    } else if let Some(r) = &s.proxy_result {
         ctx.violation("proxy_ended", format!("proxy() returned ({r}) although no client or worker departed and every worker was admitted before the first request"));
     } else if s.clients_done != nc && !had && end == rt::RunEnd::Quiescent {
         ctx.violation("request_lost_in_proxy", format!("{} of {nc} clients completed their round trips; a request or reply was not forwarded", s.clients_done));
+    }
+    if late_workers && s.proxy_result.is_none() {
+        ctx.probe("proxy_kept_running_without_workers");
     }
     if !had && s.proxy_result.is_none() {
         let total: u32 = rounds.iter().sum();
@@ -612,7 +645,7 @@ pub fn def() -> PropDef {
     PropDef {
         id: "C15",
         level: "exploration",
-        rule: "one case = REQ clients (1..3, real sockets or scripted) - ROUTER | proxy() | DEALER - REP workers (1..3, real or scripted echo), capture socket kind walked by the case index {none, PUSH, PUB, DEALER} connected to a scripted sink; 1..4 lock-step round trips per client with drawn payload shapes; transport, schedule and select! order drawn per case; every worker admitted before the first request; oracles on connection taps; proxy_dealer_world: the same proxy with 1..3 DEALER clients (real or scripted) that pipeline 1..5 (one case in twelve: 130..330, back to back) delimiter-less messages of 1..3 frames (a single frame becomes the two-frame [identity, content] on the ROUTER side) to 1..2 DEALER echo workers: every message comes back to its sender verbatim and exactly once (in order with one worker), reaches the workers as identity + verbatim frames in per-client order, capture gets one copy per forwarded message; non-trivial = judgement reached with proxy still running; distinct = distinct (plan, schedule, transport+select) hashes",
+        rule: "one case = REQ clients (1..3, real sockets or scripted) - ROUTER | proxy() | DEALER - REP workers (1..3, real or scripted echo), capture socket kind walked by the case index {none, PUSH, PUB, DEALER} connected to a scripted sink; 1..4 lock-step round trips per client with drawn payload shapes; transport, schedule and select! order drawn per case; every worker admitted before the first request (one case in ten: workers arrive only after the first requests - the proxy may stop with the error, but if it keeps running nothing may be lost); oracles on connection taps; proxy_dealer_world: the same proxy with 1..3 DEALER clients (real or scripted) that pipeline 1..5 (one case in twelve: 130..330, back to back) delimiter-less messages of 1..3 frames (a single frame becomes the two-frame [identity, content] on the ROUTER side) to 1..2 DEALER echo workers: every message comes back to its sender verbatim and exactly once (in order with one worker), reaches the workers as identity + verbatim frames in per-client order, capture gets one copy per forwarded message; non-trivial = judgement reached with proxy still running; distinct = distinct (plan, schedule, transport+select) hashes",
         assumptions: &["clients and workers do not depart during a run (proxy() returns on the first send error, and the statement speaks about the time while a proxy runs)", "the capture sink accepts every write"],
         strata: vec![
             Stratum { name: "proxy_world", quick: 60_000, thorough: (1_000_000) * 2, exhaustive: (false, false), run: proxy_world, what: "REQ - ROUTER/proxy/DEALER - REP chain with capture, verbatim forwarding on taps" },
